@@ -397,8 +397,92 @@ func sliceClass(v any, rt reflect.Type) string {
 	return rt.Kind().String()
 }
 
+// storeAgreesWithResult compares every store getter on key with the result accessors on the value the
+// reference map holds for it (the store must answer for the CURRENT value, whatever was read or merged before).
+func storeAgreesWithResult(s *flyt.SharedStore, key string, v any) (string, string) {
+	r := flyt.NewResult(v)
+	var k, d string
+	p, msg := call(func() {
+		if g, w := s.GetString(key), r.AsStringOr(""); g != w {
+			k, d = "stateful-store-string", fmt.Sprintf("GetString(%q)=%q, result accessor on the stored %T gives %q", key, g, v, w)
+		}
+		if g, w := s.GetIntOr(key, -4242), r.AsIntOr(-4242); g != w {
+			k, d = "stateful-store-int", fmt.Sprintf("GetIntOr(%q)=%d, result accessor on the stored %T gives %d", key, g, v, w)
+		}
+		if g, w := s.GetFloat64Or(key, -42.5), r.AsFloat64Or(-42.5); math.Float64bits(g) != math.Float64bits(w) {
+			k, d = "stateful-store-float", fmt.Sprintf("GetFloat64Or(%q)=%v, result accessor on the stored %T gives %v", key, g, v, w)
+		}
+		if g, w := s.GetBoolOr(key, true), r.AsBoolOr(true); g != w {
+			k, d = "stateful-store-bool", fmt.Sprintf("GetBoolOr(%q)=%v, result accessor gives %v", key, g, w)
+		}
+		dflt := []any{"DEFAULT-SENTINEL"}
+		if g, w := s.GetSliceOr(key, dflt), r.AsSliceOr(dflt); !sameSliceElems(g, w) {
+			k, d = "stateful-store-slice", fmt.Sprintf("GetSliceOr(%q)=%v, but the slice accessor on the value stored now (%T) gives %v", key, g, v, w)
+		}
+		gm, wm := s.GetMap(key), r.AsMapOr(nil)
+		if (gm == nil) != (wm == nil) || (gm != nil && reflect.ValueOf(gm).Pointer() != reflect.ValueOf(wm).Pointer()) {
+			k, d = "stateful-store-map", fmt.Sprintf("GetMap(%q) is not the map stored now", key)
+		}
+	})
+	if p {
+		return "stateful-panic", msg
+	}
+	return k, d
+}
+
+// statefulZoo: the values the stateful store families draw from — container-heavy, so that conversions,
+// caches and in-place updates matter.
+func statefulZoo() []zoo.Named {
+	var out []zoo.Named
+	for _, z := range zoo.Fixed() {
+		for _, p := range []string{"slice-", "map-", "named-", "rec-", "int-1", "string", "nil", "float64-1.5", "bool-true", "struct", "ptr-"} {
+			if strings.HasPrefix(z.Name, p) {
+				out = append(out, z)
+				break
+			}
+		}
+	}
+	return out
+}
+
+func runC15Stateful(c *Cfg) {
+	r := c.Rep
+	n := c.Pick(1500, 30000)
+	parallel(c, n, func(i int) {
+		cs := genStoreCase(c, 1_000_000+i, 120)
+		// interleave in-place mutations
+		rg := c.Rng("c15st", i)
+		for j := range cs.Steps {
+			if rg.IntN(5) == 0 {
+				cs.Steps[j].Op = "mutate-in-place"
+			}
+		}
+		key, detail, stats := runStoreCaseWith(cs, statefulZoo(), func(si int, st StoreStep, s *flyt.SharedStore, ref map[string]any) (string, string) {
+			for _, k := range storeKeys {
+				if v, ok := ref[k]; ok {
+					if fk, fd := storeAgreesWithResult(s, k, v); fk != "" {
+						return fk, fmt.Sprintf("step %d (%s): %s", si, st.Op, fd)
+					}
+				}
+			}
+			return "", ""
+		})
+		r.Eval()
+		r.Count("stateful.sequences", 1)
+		r.Count("stateful.steps", int64(stats["steps"]))
+		r.Count("stateful.in_place_mutations", int64(stats["in_place_mutations"]))
+		if key != "" && strings.HasPrefix(key, "stateful") {
+			cs.Family = "stateful"
+			r.Violate("C15", "C15:"+key, detail, cs)
+		}
+		b, _ := json.Marshal(cs.Steps)
+		r.Nontrivial("st:" + string(b))
+	})
+}
+
 func runC15(c *Cfg) {
 	r := c.Rep
+	runC15Stateful(c)
 	fixed := zoo.Fixed()
 	kindsSeen := map[string]bool{}
 	for _, z := range fixed {
@@ -455,6 +539,28 @@ func zooNames(z []zoo.Named) []string {
 }
 
 func replayC15(c *Cfg, spec json.RawMessage) {
+	var probeFam struct {
+		Family string `json:"family"`
+	}
+	if json.Unmarshal(spec, &probeFam) == nil && probeFam.Family == "stateful" {
+		var cs StoreCase
+		_ = json.Unmarshal(spec, &cs)
+		key, detail, _ := runStoreCaseWith(&cs, statefulZoo(), func(si int, st StoreStep, s *flyt.SharedStore, ref map[string]any) (string, string) {
+			for _, k := range storeKeys {
+				if v, ok := ref[k]; ok {
+					if fk, fd := storeAgreesWithResult(s, k, v); fk != "" {
+						return fk, fmt.Sprintf("step %d (%s): %s", si, st.Op, fd)
+					}
+				}
+			}
+			return "", ""
+		})
+		if key != "" {
+			fmt.Printf(" * finding %s: %s\n", key, detail)
+			c.Rep.Violate("C15", "C15:"+key, detail, cs)
+		}
+		return
+	}
 	var vc ValCase
 	if err := json.Unmarshal(spec, &vc); err != nil {
 		fmt.Println("cannot parse:", err)
